@@ -107,6 +107,7 @@ type Node struct {
 	FailBlock     int // fail the next k ProcessBlock calls (anti-MEV heights only)
 	NilBlock      bool
 	RMsgOrder     func(n int) []int
+	Requested     []H // every hash asked for through RequestTx since the last Start/Reset
 
 	// observation
 	cbs       []CbRec
@@ -200,6 +201,11 @@ func (n *Node) build() {
 		}),
 		dbft.WithRequestTx[H](func(h ...H) {
 			n.cb(CbRec{K: "RequestTx", Hashes: hs(h)})
+			for _, x := range h {
+				if indexOfH(n.Requested, x) < 0 {
+					n.Requested = append(n.Requested, x)
+				}
+			}
 		}),
 		dbft.WithStopTxFlow[H](func() { n.cb(CbRec{K: "StopTxFlow", At: n.Proj(nil)}) }),
 		dbft.WithVerifyBlock[H](func(b dbft.Block[H]) bool {
@@ -676,7 +682,17 @@ func (n *Node) call(name string, arg any, f func()) *Line {
 	return l
 }
 
+func indexOfH(l []H, x H) int {
+	for i, v := range l {
+		if v == x {
+			return i
+		}
+	}
+	return -1
+}
+
 func (n *Node) newEpochObs() {
+	n.Requested = nil
 	n.notEarly = map[string]bool{}
 	n.verified = map[string]bool{}
 }
